@@ -82,6 +82,12 @@ func (vc *VC) fresh(prefix, sort string) string {
 	return vc.declare(name, sort)
 }
 
+// assumeGlobal: a fact about constants that is independent of the path (never
+// captured by a quantifier body under construction).
+func (vc *VC) assumeGlobal(t string) {
+	vc.lines = append(vc.lines, "(assert "+t+")")
+}
+
 func (vc *VC) assume(t string) {
 	if t == "true" || t == "" {
 		return
@@ -159,7 +165,9 @@ func (s *State) clone() *State {
 // function-entry heap: epochs form a tree of "havoc these names" and "merge of
 // these predecessor epochs" nodes, resolved lazily per heap name.
 type epochInfo struct {
-	kind   int // 0 root, 1 havoc, 2 merge
+	kind   int // 0 root, 1 havoc, 2 merge, 3 havoc of one row
+	row    string
+	top    string
 	parent int
 	pats   []string
 	pcs    []string
@@ -193,6 +201,19 @@ func (x *Exec) heapAtEpoch(e int, name, sort string) string {
 			t = x.vc.declare(fmt.Sprintf("%s@%d", name, e), sort)
 		} else {
 			t = x.heapAtEpoch(info.parent, name, sort)
+		}
+	case 3:
+		hit := false
+		for _, p := range info.pats {
+			if heapMatches(name, p) {
+				hit = true
+			}
+		}
+		pt := x.heapAtEpoch(info.parent, name, sort)
+		if hit {
+			t = x.rowHavoc(name, sort, pt, info.row, info.top)
+		} else {
+			t = pt
 		}
 	case 2:
 		ts := make([]string, len(info.eps))
@@ -245,6 +266,36 @@ func (x *Exec) havocHeapsMatching(st *State, pats []string) {
 			}
 		}
 	}
+}
+
+// rowHavoc: a heap equal to `from` everywhere except at reference `row` and at
+// references allocated after `top`.
+func (x *Exec) rowHavoc(name, sort, from, row, top string) string {
+	t := x.vc.fresh(name, sort)
+	x.vc.nfresh++
+	r := fmt.Sprintf("r!%d", x.vc.nfresh)
+	x.vc.assumeGlobal("(forall ((" + r + " Int)) (! (=> (and (not (= " + r + " " + row + ")) (<= " + r + " " + top + ")) (= (select " + t + " " + r + ") (select " + from + " " + r + "))) :pattern ((select " + t + " " + r + "))))")
+	return t
+}
+
+// havocRow forgets row `row` (and whatever the callee allocated) of the heaps
+// matching the patterns.
+func (x *Exec) havocRow(st *State, pats []string, row, top string) {
+	for n, cur := range st.heaps {
+		for _, p := range pats {
+			if heapMatches(n, p) {
+				st.heaps[n] = x.rowHavoc(n, x.heapSorts[n], cur, row, top)
+				break
+			}
+		}
+	}
+	// heaps not written in this state resolve lazily
+	explicit := map[string]string{}
+	for n, t := range st.heaps {
+		explicit[n] = t
+	}
+	st.epoch = x.newEpoch(&epochInfo{kind: 3, parent: st.epoch, pats: pats, row: row, top: top})
+	_ = explicit
 }
 
 func heapMatches(name, pat string) bool {
